@@ -319,7 +319,7 @@ class Sem:
         raise ValueError(k)
 
     # -- derivation counting ------------------------------------------------
-    def derivation_counts(self, units: str, max_iter: int = 60) -> Any:
+    def derivation_counts(self, units: str, max_iter: int = 60, greedy: bool = False) -> Any:
         """(chart, W, converged): chart[(nt, i)] = {j: number of distinct derivation trees of
         units[i:j] from nt}; W = total number of (IR node or sequence prefix, i, j, tree)
         partial derivations - an upper bound (up to a constant) for the work of any chart
@@ -327,7 +327,7 @@ class Sem:
         ambiguous grammars; converged=False signals that counts kept growing."""
         n = len(units)
         chart: dict[tuple[str, int], dict[int, int]] = {(k, i): {} for k in self.rules for i in range(n + 1)}
-        self._greedy = False
+        self._greedy = greedy
         converged = False
         for _ in range(max_iter):
             changed = False
